@@ -307,7 +307,8 @@ def specPseudo (sf : Bool) (k : ObsKind) (p : Option Ops) (parent : CSet) (sb : 
   | some o =>
     ({ set := applyOps sf (inheritCounters parent sb.set sb.last) sb.next sb.ids o, ids := sb.next :: sb.ids,
        last := applyOps sf (inheritCounters parent sb.set sb.last) sb.next sb.ids o, next := sb.next + 1 },
-     [⟨k, (applyOps sf (inheritCounters parent sb.set sb.last) sb.next sb.ids o).values⟩])
+     (if o.listItem then [⟨.marker, (applyOps sf (inheritCounters parent sb.set sb.last) sb.next sb.ids o).values⟩] else [])
+       ++ [⟨k, (applyOps sf (inheritCounters parent sb.set sb.last) sb.next sb.ids o).values⟩])
 
 mutual
   /-- an element: inherit, apply its own properties, then visit ::before, the children and ::after as
